@@ -36,75 +36,119 @@ func VPH_gitCommand() {
 	repo := &Repository{gitDir: gitDir, gitBin: "/usr/bin/git"}
 	cmd := repo.GitCommand(args...)
 
-	want := append([]string{"/usr/bin/git", "--no-replace-objects", "-c", "advice.graftFileDeprecated=false"}, args...)
-	vp_Assert(len(cmd.Args) == len(want), "argv = git, --no-replace-objects, -c advice.graftFileDeprecated=false, caller args")
-	for i := 0; i < len(want) && i < len(cmd.Args); i++ {
-		vp_Assert(cmd.Args[i] == want[i], "argv element")
+	// argv: the chosen git binary, global options among which --no-replace-objects, then exactly the caller's arguments
+	n := len(cmd.Args)
+	vp_Assert(n >= 1+len(args) && cmd.Args[0] == "/usr/bin/git" && cmd.Path == "/usr/bin/git", "the chosen git binary is run")
+	if n < 1+len(args) {
+		return
 	}
-	// environment: everything inherited first, then GIT_DIR and GIT_GRAFT_FILE (exec uses the last duplicate)
-	n := len(cmd.Env)
-	vp_Assert(n == len(env)+2, "environment = inherited + 2")
-	if n >= 2 {
-		vp_Assert(cmd.Env[n-2] == "GIT_DIR="+gitDir, "GIT_DIR set to the repository, after anything inherited")
-		vp_Assert(cmd.Env[n-1] == "GIT_GRAFT_FILE="+os.DevNull, "grafts disabled, after anything inherited")
+	for i := range args {
+		vp_Assert(cmd.Args[n-len(args)+i] == args[i], "the caller's arguments follow the global options, unchanged and in order")
 	}
-	for i := 0; i < len(env) && i < n; i++ {
-		vp_Assert(cmd.Env[i] == env[i], "inherited environment kept in order")
+	noReplace := false
+	for _, a := range cmd.Args[1 : n-len(args)] {
+		if a == "--no-replace-objects" {
+			noReplace = true
+		}
+	}
+	vp_Assert(noReplace, "replacement objects are disabled for every git command (--no-replace-objects before the subcommand)")
+
+	// environment as the child sees it: os/exec keeps the LAST entry of a duplicated variable
+	effective := func(list []string, key string) (string, bool) {
+		val, ok := "", false
+		for _, e := range list {
+			if len(e) > len(key) && e[:len(key)] == key && e[len(key)] == '=' {
+				val, ok = e[len(key)+1:], true
+			}
+		}
+		return val, ok
+	}
+	v, ok := effective(cmd.Env, "GIT_DIR")
+	vp_Assert(ok && v == gitDir, "the child's GIT_DIR is the repository, whatever was inherited")
+	v, ok = effective(cmd.Env, "GIT_GRAFT_FILE")
+	vp_Assert(ok && v == os.DevNull, "grafts are disabled in the child (GIT_GRAFT_FILE=/dev/null), whatever was inherited")
+	for _, key := range []string{"PATH", "HOME", "GIT_REPLACE_REF_BASE"} {
+		want, had := effective(env, key)
+		got, has := effective(cmd.Env, key)
+		vp_Assert(had == has && want == got, "other inherited variables reach the child unchanged: "+key)
 	}
 	vp_Reach("end")
 }
 
+// VPH_isFull: a model file system in which `shallow` lives in the common git
+// directory; the repository is opened through its main GIT_DIR or through a
+// linked worktree's GIT_DIR. git answers the two questions git-sizer could
+// ask about it; any other command has no modelled answer.
 func VPH_isFull() {
 	if vp_Native() {
 		vp_Reach("end")
 		return
 	}
 	vp_Stub("github.com/github/git-sizer/git.findGitBin", func() (string, error) { return "/usr/bin/git", nil })
-	gitPathFails := vp_Choice("gitpath-fails", 2) == 1
-	var commands [][]string
+	linked := vp_Choice("linked-worktree", 2) == 1
+	shallow := vp_Choice("shallow", 2) == 1
+	gitFails := vp_Choice("git-fails", 2) == 1
+	lstatBroken := vp_Choice("lstat-io-error", 2) == 1
+	notExistKind := vp_Choice("notexist-kind", 2)
+	gitDir := ".git"
+	if linked {
+		gitDir = ".git/worktrees/wt"
+	}
+	var last []string
 	vp_Stub("(*github.com/github/git-sizer/git.Repository).GitCommand", func(r *Repository, args ...string) *exec.Cmd {
-		commands = append(commands, args)
+		last = args
 		return &exec.Cmd{}
 	})
 	vp_Stub("(*os/exec.Cmd).Output", func(c *exec.Cmd) ([]byte, error) {
-		if gitPathFails {
+		if gitFails {
 			return nil, &exec.ExitError{}
 		}
-		return []byte(".git/shallow\n"), nil
-	})
-	lstat := vp_Choice("lstat", 4) // 0 exists, 1 ENOENT, 2 wrapped not-exist, 3 other error
-	var statPath string
-	vp_Stub("os.Lstat", func(name string) (os.FileInfo, error) {
-		statPath = name
-		switch lstat {
-		case 0:
-			return nil, nil
-		case 1:
-			return nil, &fs.PathError{Op: "lstat", Path: name, Err: syscall.ENOENT}
-		case 2:
-			return nil, &fs.PathError{Op: "lstat", Path: name, Err: fs.ErrNotExist}
+		switch {
+		case len(last) == 3 && last[0] == "rev-parse" && last[1] == "--git-path" && last[2] == "shallow":
+			return []byte(".git/shallow\n"), nil // git resolves it in the common directory
+		case len(last) == 2 && last[0] == "rev-parse" && last[1] == "--is-shallow-repository":
+			if shallow {
+				return []byte("true\n"), nil
+			}
+			return []byte("false\n"), nil
 		}
-		return nil, &fs.PathError{Op: "lstat", Path: name, Err: errors.New("i/o error")}
+		vp_Inconclusive("the shallow check issued a git command with no modelled answer")
+		return nil, nil
 	})
-	repo, err := NewRepositoryFromGitDir(".git")
+	vp_Stub("os.Lstat", func(name string) (os.FileInfo, error) {
+		if lstatBroken {
+			return nil, &fs.PathError{Op: "lstat", Path: name, Err: errors.New("i/o error")}
+		}
+		if name == ".git/shallow" && shallow {
+			return nil, nil
+		}
+		if notExistKind == 0 {
+			return nil, &fs.PathError{Op: "lstat", Path: name, Err: syscall.ENOENT}
+		}
+		return nil, &fs.PathError{Op: "lstat", Path: name, Err: fs.ErrNotExist}
+	})
+	vp_Stub("os.Stat", func(name string) (os.FileInfo, error) {
+		vp_Inconclusive("os.Stat is not modelled")
+		return nil, nil
+	})
+	repo, err := NewRepositoryFromGitDir(gitDir)
 	switch {
-	case gitPathFails:
-		vp_Assert(err != nil && repo == nil, "cannot determine: error")
-	case lstat == 0:
-		vp_Assert(err != nil && repo == nil, "a shallow clone is refused")
+	case gitFails && last != nil:
+		vp_Assert(err != nil && repo == nil, "if git is asked and cannot answer, the run fails")
+	case lstatBroken && err == nil:
+		// only acceptable if the implementation did not need the file system (asked git directly)
+		vp_Assert(!shallow, "a shallow clone is refused")
+	case lstatBroken:
+		vp_Assert(repo == nil, "an unreadable shallow marker is an error, not 'full'")
+	case shallow:
+		vp_Assert(err != nil && repo == nil, "a shallow clone is refused, however the repository is addressed")
 		vp_Reach("shallow-refused")
-	case lstat == 1 || lstat == 2:
+	default:
 		vp_Assert(err == nil && repo != nil, "a full clone is accepted")
 		if repo != nil {
-			vp_Assert(repo.gitDir == ".git", "repository addressed by the given GIT_DIR")
+			vp_Assert(repo.gitDir == gitDir, "repository addressed by the given GIT_DIR")
 		}
 		vp_Reach("full")
-	default:
-		vp_Assert(err != nil && repo == nil, "an unreadable shallow marker is an error, not 'full'")
-	}
-	if !gitPathFails {
-		vp_Assert(statPath == ".git/shallow", "the path git reports for 'shallow' is the one examined")
-		vp_Assert(len(commands) == 1 && len(commands[0]) == 3 && commands[0][0] == "rev-parse" && commands[0][1] == "--git-path" && commands[0][2] == "shallow", "git is asked for the path of 'shallow'")
 	}
 }
 
